@@ -8,10 +8,8 @@ From Muscle Require Import Gen.Consts Refl.Base Refl.BaseProofs Refl.Tree Refl.T
      Refl.Session Refl.Server Refl.ServerProofs Refl.IsoModel Refl.IsoBase Refl.IsoFrame Refl.IsoDetach Refl.IsoRun Refl.IsoClean Refl.IsoOrd.
 Import ListNotations.
 
-Section OrdProofs.
+Section OrdTables.
 Context {M : MatchOps}.
-Variable fx : fixes.
-Variable iname : N -> name.
 
 Notation oserver := (@oserver M).
 
@@ -232,7 +230,16 @@ Proof.
   destruct (IH (f ct a)) as [I1 I2]; [intros ct0 a0 Ha0; apply H; now right|]. split; [congruence|auto].
 Qed.
 
+End OrdTables.
+
 (* ------------------------------------------------------------------ FRAME *)
+
+Section OrdProofs.
+Context {M : MatchOps}.
+Variable fx : fixes.
+Variable iname : N -> name.
+
+Notation oserver := (@oserver M).
 
 Definition oframe (s : sid) (dir : path) (os os' : oserver) : Prop :=
   xframe s dir (o_x os) (o_x os') /\
@@ -266,52 +273,71 @@ Qed.
 Lemma session_dir_len : forall ss : session, length (session_dir ss) = 2.
 Proof. reflexivity. Qed.
 
+Lemma visit_paths_below : forall t ss key p, In p (visit_paths fx t ss key) -> exists r, r <> [] /\ p = session_dir ss ++ r.
+Proof.
+  intros t ss key p H. unfold visit_paths in H. apply in_map_iff in H as [n [<- Hn]]. now apply visits_below in Hn.
+Qed.
+
+Lemma do_insert_tables : forall (os : oserver) ss key items (t' : tree),
+  let dir := session_dir ss in
+  let t := sv_tree (xs_sv (o_x os)) in
+  let plans : list plan := map (fun p => (p, plan_names iname t p (ctr_get (o_ctr os) p) items)) (visit_paths fx t ss key) in
+  let idx' := fold_left (fun ix (pl : plan) =>
+                           idx_set ix (fst pl)
+                             (fold_left (fun l (e : name * option name * payload) =>
+                                           if has_node t' (fst pl ++ [fst (fst e)]) then idx_insert l (snd (fst e)) (fst (fst e)) else l)
+                                        (snd (snd pl)) (idx_get ix (fst pl)))) plans (o_idx os) in
+  let ctr' := fold_left (fun ct (pl : plan) => ctr_set ct (fst pl) (fst (snd pl))) plans (o_ctr os) in
+  (idx_out dir idx' = idx_out dir (o_idx os) /\ (deep (o_idx os) -> deep idx')) /\
+  (ctr_out dir ctr' = ctr_out dir (o_ctr os) /\ (deep (o_ctr os) -> deep ctr')).
+Proof.
+  intros os ss key items t' dir t plans idx' ctr'.
+  assert (Hpl : forall pl, In pl plans -> is_prefix dir (fst pl) = true /\ 2 <= length (fst pl)).
+  { intros pl Hpl. unfold plans in Hpl. apply in_map_iff in Hpl as [p [<- Hp]]. cbn [fst].
+    apply visit_paths_below in Hp as [r [Hr ->]]. split; [apply below_inside|]. rewrite app_length. unfold dir. rewrite session_dir_len. lia. }
+  split.
+  - apply fold_idx_inside. intros ix a Ha. destruct (Hpl a Ha) as [P1 P2]. split; [now apply idx_out_set_inside|intros; now apply deep_idx_set].
+  - apply fold_ctr_inside. intros ct a Ha. destruct (Hpl a Ha) as [P1 P2]. split; [now apply ctr_out_set_inside|intros; now apply deep_ctr_set].
+Qed.
+
 Lemma do_insert_frame : forall nest os ss key items, get_session (xs_sv (o_x os)) (s_id ss) = Some ss -> ok os ->
   oframe (s_id ss) (session_dir ss) os (do_insert fx iname nest os ss key items).
 Proof.
   intros nest os ss key items Hs Hok. unfold do_insert. cbv zeta.
-  set (dir := session_dir ss).
-  set (t := sv_tree (xs_sv (o_x os))).
-  set (vs := visits t (key_matcher key) dir true (fx_guard fx)).
-  set (plans := map (fun n => (n_path n, plan_names iname t (n_path n) (ctr_get (o_ctr os) (n_path n)) items)) vs).
-  match goal with |- oframe _ _ _ (oprune (mkO ?X ?I ?C)) => set (x' := X); set (ix' := I); set (ct' := C) end.
-  assert (Hpl : forall pl, In pl plans -> is_prefix dir (fst pl) = true /\ 2 <= length (fst pl)).
-  { intros pl Hpl. unfold plans in Hpl. apply in_map_iff in Hpl as [n [<- Hn]]. cbn [fst].
-    apply visits_below in Hn as [r [Hr Hp]]. rewrite Hp. split; [apply below_inside|]. rewrite app_length. unfold dir. rewrite session_dir_len. lia. }
-  assert (Fx : xframe (s_id ss) dir (o_x os) x') by (apply xhandle_xframe; exact Hs).
-  destruct Hok as [D1 [D2 [S1 S2]]].
-  destruct (fold_idx_inside _ dir
-              (fun ix (pl : path * (N * list (name * option name * payload))) =>
-                 idx_set ix (fst pl)
-                   (fold_left (fun l (e : name * option name * payload) =>
-                                 if has_node (sv_tree (xs_sv x')) (fst pl ++ [fst (fst e)]) then idx_insert l (snd (fst e)) (fst (fst e)) else l)
-                              (snd (snd pl)) (idx_get ix (fst pl)))) plans (o_idx os)) as [I1 I2].
-  { intros ix a Ha. destruct (Hpl a Ha) as [P1 P2]. split; [now apply idx_out_set_inside|intros; now apply deep_idx_set]. }
-  destruct (fold_ctr_inside _ dir
-              (fun ct (pl : path * (N * list (name * option name * payload))) => ctr_set ct (fst pl) (fst (snd pl))) plans (o_ctr os)) as [C1 C2].
-  { intros ct a Ha. destruct (Hpl a Ha) as [P1 P2]. split; [now apply ctr_out_set_inside|intros; now apply deep_ctr_set]. }
-  assert (Hso : same_outside dir (sv_tree (xs_sv (o_x os))) (sv_tree (xs_sv x'))) by (apply (frame_same_outside (s_id ss)); exact (proj1 Fx)).
-  destruct (prune_frame dir os x' ix' ct' (session_dir_len ss) (conj D1 (conj D2 (conj S1 S2))) Hso I1 C1 (I2 D1) (C2 D2)) as [A1 [A2 A3]].
+  match goal with |- oframe _ _ _ (oprune (mkO ?X ?I ?C)) => set (x' := X) end.
+  destruct (do_insert_tables os ss key items (sv_tree (xs_sv x'))) as [[I1 I2] [C1 C2]]. cbv zeta in I1, I2, C1, C2.
+  assert (Fx : xframe (s_id ss) (session_dir ss) (o_x os) x') by (apply xhandle_xframe; exact Hs).
+  pose proof Hok as [D1 [D2 [S1 S2]]].
+  assert (Hso : same_outside (session_dir ss) (sv_tree (xs_sv (o_x os))) (sv_tree (xs_sv x'))) by (apply (frame_same_outside (s_id ss)); exact (proj1 Fx)).
+  destruct (prune_frame (session_dir ss) os x' _ _ (session_dir_len ss) Hok Hso I1 C1 (I2 D1) (C2 D2)) as [A1 [A2 A3]].
   split; [exact Fx|]. split; [exact A1|]. split; [exact A2|exact A3].
+Qed.
+
+Lemma reorder_at_inside : forall t b ss key p ix, In p (visit_paths fx t ss key) ->
+  idx_out (session_dir ss) (reorder_at t b ix p) = idx_out (session_dir ss) ix /\ (deep ix -> deep (reorder_at t b ix p)).
+Proof.
+  intros t b ss key p ix Hp. apply visit_paths_below in Hp as [r [Hr ->]]. unfold reorder_at. cbv zeta.
+  rewrite removelast_app_ne by exact Hr. split; [apply idx_out_set_inside, below_inside|].
+  intros; apply deep_idx_set; [assumption|]. rewrite app_length, session_dir_len. lia.
+Qed.
+
+Lemma do_reorder_tables : forall (os : oserver) ss fields,
+  let t := sv_tree (xs_sv (o_x os)) in
+  let idx' := fold_left (fun ix (f : spath * option name) => fold_left (reorder_at t (snd f)) (visit_paths fx t ss (fst f, None)) ix)
+                        fields (o_idx os) in
+  idx_out (session_dir ss) idx' = idx_out (session_dir ss) (o_idx os) /\ (deep (o_idx os) -> deep idx').
+Proof.
+  intros os ss fields t idx'. apply fold_idx_inside. intros ix f _. apply fold_idx_inside. intros ix0 p Hp. now apply (reorder_at_inside t (snd f) ss (fst f, None)).
 Qed.
 
 Lemma do_reorder_frame : forall os ss fields, get_session (xs_sv (o_x os)) (s_id ss) = Some ss -> ok os ->
   oframe (s_id ss) (session_dir ss) os (do_reorder fx os ss fields).
 Proof.
   intros os ss fields Hs Hok. unfold do_reorder. cbv zeta.
-  set (dir := session_dir ss). set (t := sv_tree (xs_sv (o_x os))).
-  match goal with |- oframe _ _ _ (oprune (mkO ?X ?I ?C)) => set (ix' := I) end.
-  destruct Hok as [D1 [D2 [S1 S2]]].
-  destruct (fold_idx_inside _ dir
-              (fun ix (f : spath * option name) =>
-                 fold_left (fun ix' n => let parent := removelast (n_path n) in
-                                         idx_set ix' parent (reorder_one t (idx_get ix' parent) parent (last (n_path n) 0%N) (snd f)))
-                           (visits t (key_matcher (fst f, None)) dir true (fx_guard fx)) ix) fields (o_idx os)) as [I1 I2].
-  { intros ix f _. apply fold_idx_inside. intros ix0 n Hn. cbv zeta. apply visits_below in Hn as [r [Hr Hp]].
-    rewrite Hp, removelast_app_ne by exact Hr. split; [apply idx_out_set_inside, below_inside|].
-    intros; apply deep_idx_set; [assumption|]. rewrite app_length. unfold dir. rewrite session_dir_len. lia. }
-  assert (Hso : same_outside dir (sv_tree (xs_sv (o_x os))) (sv_tree (xs_sv (o_x os)))) by (intros q _ _; reflexivity).
-  destruct (prune_frame dir os (o_x os) ix' (o_ctr os) (session_dir_len ss) (conj D1 (conj D2 (conj S1 S2))) Hso I1 eq_refl (I2 D1) D2) as [A1 [A2 A3]].
+  destruct (do_reorder_tables os ss fields) as [I1 I2]. cbv zeta in I1, I2.
+  pose proof Hok as [D1 [D2 [S1 S2]]].
+  assert (Hso : same_outside (session_dir ss) (sv_tree (xs_sv (o_x os))) (sv_tree (xs_sv (o_x os)))) by (intros q _ _; reflexivity).
+  destruct (prune_frame (session_dir ss) os (o_x os) _ (o_ctr os) (session_dir_len ss) Hok Hso I1 eq_refl (I2 D1) D2) as [A1 [A2 A3]].
   split; [apply xframe_refl|]. split; [exact A1|]. split; [exact A2|exact A3].
 Qed.
 
@@ -443,7 +469,7 @@ Proof.
       + unfold out in Ho. apply negb_true_iff in Ho. now rewrite Hp.
       + rewrite Hp. intros E. rewrite E in Hq. cbn in Hq. lia.
     - destruct (lc_rest _ _ _ _ C n Hn) as [n0 [Hn0 [Hp0 _]]]. apply has_node_spec. exists n0. split; [exact Hn0|congruence]. }
-  destruct (prune_frame iname (session_dir ss) os (xdetach fx (o_x os) s) (o_idx os) (o_ctr os) eq_refl Hok Hso eq_refl eq_refl
+  destruct (prune_frame (session_dir ss) os (xdetach fx (o_x os) s) (o_idx os) (o_ctr os) eq_refl Hok Hso eq_refl eq_refl
                         (proj1 Hok) (proj1 (proj2 Hok))) as [A1 [A2 A3]].
   fold os' in A1, A2, A3. split; [exact C|]. split; [|split; [|split; [exact A1|split; [exact A2|exact A3]]]].
   - intros e He. destruct (proj1 (proj2 (proj2 A3)) e He) as [Hn _]. apply has_node_spec in Hn as [n [Hn Hp]].
